@@ -466,8 +466,9 @@ def main(argv):
     ev = dict(property_id=prop, tier=tier, seed=seed, level='proof', coverage=cov,
               assumptions=list(getattr(mod, 'ASSUMPTIONS', [])), wall_s=round(time.time() - t0, 2),
               violations=len(new_violations) + (1 if (status and not new_violations) else 0))
-    os.makedirs(VERIF + '/evidence', exist_ok=True)
-    with open('%s/evidence/%s.json' % (VERIF, prop), 'w') as f:
+    evdir = VERIF + '/evidence' if REPO == '/repo' or os.environ.get('VERIF_ROOT', '/verif') != '/verif' else OUT + '/evidence-scratch'
+    os.makedirs(evdir, exist_ok=True)     # runs against a scratch repository (seeded changes) do not overwrite the evidence
+    with open('%s/%s.json' % (evdir, prop), 'w') as f:
         json.dump(ev, f, indent=1, default=repr)
     for line in out_lines:
         print(line)
